@@ -95,7 +95,7 @@ fn check_model(p: &[MeanVari], rep: &Report, ties: &AtomicU64, floors: &AtomicU6
 
 pub fn run(tier: Tier) -> i32 {
     let rep = Report::new("C08", tier, "model_checking");
-    rep.set_rule("SCOPE: full product over states 1..N of (mean in {0.2,0.49,0.5,1.5,2.5,10,60}) x (variance in {1e-3,1,400}) x speed lattice {0.1..50} plus F1/(k+0.5)(1±1e-9) rounding boundaries, on the real DurationEstimator::create; distinct = distinct (model, speed) pairs; non-trivial = every case (each evaluates the total-frames law)");
+    rep.set_rule("SCOPE: full product over states 1..N of (mean in {0.2,0.49,0.5,1.5,2.5,10,60}) x (variance in {1e-3,1,400}) x speed lattice {0.1..50} plus F1/(k+0.5)(1±1e-9) rounding boundaries, on the real DurationEstimator::create; plus long utterances (200 and 1500 states, totals up to 10^6 frames); distinct = distinct (model, speed) pairs; non-trivial = every case (each evaluates the total-frames law)");
     rep.assume("means/variances/speeds outside the listed alphabets are not explored; at exact .5 ties either rounding is accepted");
     let max_states = tier.pick(4usize, 5usize);
     let per = MEANS.len() * VARS.len();
@@ -115,6 +115,25 @@ pub fn run(tier: Tier) -> i32 {
             }
             if let Some((k, what, s)) = check_model(&p, &rep, &ties, &floors) {
                 rep.violation(k, what, json!({"params": p.iter().map(|m| [m.0, m.1]).collect::<Vec<_>>(), "nstate_arg": 1, "speed": s}));
+            }
+        });
+    }
+    // long utterances (totals of 10^4..10^6 frames at slow speeds): every 1-state pattern repeated 200 times, and a
+    // few repeated 1500 times
+    {
+        let mut long: Vec<(Vec<MeanVari>, usize)> = Vec::new();
+        for ch in 0..per {
+            long.push((vec![MeanVari(MEANS[ch % 7], VARS[ch / 7])], 200));
+        }
+        for (a, b) in [(6usize, 0usize), (5, 3), (0, 6)] {
+            long.push((vec![MeanVari(MEANS[a], VARS[1]), MeanVari(MEANS[b], VARS[2])], 1500));
+        }
+        nmodels += long.len() as u64;
+        rep.par_for(long.len(), 1, "C08 long utterances", |i| {
+            let (pat, n) = &long[i];
+            let p: Vec<MeanVari> = (0..*n).map(|k| pat[k % pat.len()]).collect();
+            if let Some((k, what, s)) = check_model(&p, &rep, &ties, &floors) {
+                rep.violation(k, what, json!({"periodic_pattern": pat.iter().map(|m| [m.0, m.1]).collect::<Vec<_>>(), "states": n, "speed": s}));
             }
         });
     }
